@@ -447,7 +447,12 @@ void run_ops(int producer, const std::vector<Op> &ops)
         const std::string &k = op.kind;
         if (producer == 0)
             C->cur_main_op = (int)i;
-        if (k == "log") {
+        if (k == "qtlog") {
+            // through Qt's macros whatever the state of the logger (e.g. after it was destroyed: the
+            // message handler is still installed and must drop the message, not touch a dead object)
+            QByteArray text = "q" + QByteArray::number(producer) + "." + QByteArray::number((int)i) + " after-destroy";
+            QMessageLogger("late.cpp", 1, "void late()", "default").warning("%s", text.constData());
+        } else if (k == "log") {
             do_log(producer, (int)i, op, false);
         } else if (k == "fatal") {
             do_log(producer, (int)i, op, true);
